@@ -6,6 +6,7 @@ import (
 	"os"
 	"regexp"
 	"strings"
+	"time"
 
 	"github.com/emersion/go-imap/v2/imapserver"
 )
@@ -103,9 +104,15 @@ func runC20(h *H) {
 	corr := h.NewCorr("matchlist", imports, "ml_mismatches", 2500).Type("ml_case")
 	h.Rule("MatchList(name, delim, ref, pattern): corpus (incl. non-ASCII delimiters), exhaustive over names in {a,b,/}* and patterns in {a,b,/,*,%}* up to the tier's lengths x 5 references x delimiter {'/', none}, names over {a,/} x short patterns x references ending in two or more delimiters, seeded random up to length 12. Non-trivial = the pattern contains a wildcard and the name is non-empty; distinct by (name, delim, ref, pattern).")
 
+	// toCoq: whether the case also goes to the in-kernel evaluation of the model. The model
+	// transcribes the backtracking matcher, so wildcard-heavy cases (exponential there) are
+	// decided by the two Go oracles only. call runs the real function (replaced by a watchdog
+	// for the adversarial cases).
+	toCoq := true
+	call := imapserver.MatchList
 	one := func(name string, delim rune, ref, pat, src string) {
 		h.InFlight(mlCase{name, delim, ref, pat, false})
-		got := imapserver.MatchList(name, delim, ref, pat)
+		got := call(name, delim, ref, pat)
 		c := mlCase{name, delim, ref, pat, got}
 		want := specMatchList(name, delim, ref, pat)
 		if got != want {
@@ -132,7 +139,9 @@ func runC20(h *H) {
 		if delim != 0 {
 			d = string(delim)
 		}
-		corr.Add(fmt.Sprintf("(%s, %s, %s, %s, %s)", coqHxS(name), coqHxS(d), coqHxS(ref), coqHxS(pat), coqBool(got)), c)
+		if toCoq {
+			corr.Add(fmt.Sprintf("(%s, %s, %s, %s, %s)", coqHxS(name), coqHxS(d), coqHxS(ref), coqHxS(pat), coqBool(got)), c)
+		}
 		if key != "" && h.Rng.Intn(2000) == 0 {
 			h.Sample(c)
 		}
@@ -241,5 +250,151 @@ func runC20(h *H) {
 			}
 		}
 		one(name, delim, ref, pat, "random")
+	}
+
+	// ---- long patterns (64..300 bytes, at most two wildcards): model, both oracles, real code
+	long := func(n int, a string) string {
+		b := make([]byte, n)
+		for i := range b {
+			b[i] = a[h.Rng.Intn(len(a))]
+		}
+		return string(b)
+	}
+	for i := 0; i < h.Pick(240, 4000); i++ {
+		delim := []rune{'/', '/', '.', 0, 0xBB}[h.Rng.Intn(5)]
+		na := "abc/."
+		if delim >= 0x80 {
+			na = "ab" + string(delim) + "\xc2"
+		}
+		n := 64 + h.Rng.Intn(40)
+		if i%2 == 1 {
+			n = 200 + h.Rng.Intn(100)
+		}
+		name := long(n, na)
+		b := []byte(name)
+		for k := h.Rng.Intn(3); k > 0; k-- {
+			i := h.Rng.Intn(len(b))
+			j := i + h.Rng.Intn(min(len(b)-i, 6)+1)
+			b = append(b[:i:i], append([]byte{"*%"[h.Rng.Intn(2)]}, b[j:]...)...)
+		}
+		switch h.Rng.Intn(4) {
+		case 0: // one byte differs somewhere
+			k := h.Rng.Intn(len(b))
+			b[k] = na[h.Rng.Intn(len(na))]
+		case 1: // something extra at the end of the name
+			name += string(na[h.Rng.Intn(len(na))])
+		}
+		pat, ref := string(b), ""
+		if h.Rng.Intn(4) == 0 {
+			k := h.Rng.Intn(8)
+			if strings.HasPrefix(pat, name[:k]) {
+				ref, pat = name[:k], pat[k:]
+			}
+		}
+		one(name, delim, ref, pat, fmt.Sprintf("long-pattern-%d", min(len(pat)/100*100, 200)))
+	}
+
+	// ---- wildcard-heavy cases: many wildcards against names that match late or almost. The
+	// property's "accepts exactly when" presupposes an answer: a call that does not return
+	// within 2 s is a failure (and a spinning command handler for C06). Oracles only.
+	toCoq = false
+	spun := false
+	call = func(name string, delim rune, ref, pat string) bool {
+		ch := make(chan bool, 1)
+		go func() { ch <- imapserver.MatchList(name, delim, ref, pat) }()
+		select {
+		case r := <-ch:
+			return r
+		case <-time.After(2 * time.Second):
+			spun = true
+			h.Fail("matchlist-spins", fmt.Sprintf("MatchList(%q, %q, %q, %q) did not return within 2 s (name %d bytes, pattern %d bytes)", name, delim, ref, pat, len(name), len(pat)),
+				mlCase{name, delim, ref, pat, false})
+			return specMatchList(name, delim, ref, pat)
+		}
+	}
+	rep := strings.Repeat
+	type adv struct {
+		name, pat string
+		delim     rune
+		ref       string
+	}
+	advs := []adv{
+		{rep("a", 40), rep("*a", 20) + "b", '/', ""},
+		{rep("a", 40), rep("*a", 20), '/', ""},
+		{rep("a", 40), rep("%a", 20) + "b", '/', ""},
+		{rep("a", 40), rep("%a", 20) + "b", 0, ""},
+		{rep("a", 300), rep("*a", 100) + "b", '/', ""},
+		{rep("a", 300), rep("*a", 100) + "*", '/', ""},
+		{rep("a", 300), rep("*a", 150) + rep("a", 151), '/', ""},
+		{rep("a", 300), rep("*a", 150) + rep("a", 150), '/', ""},
+		{rep("a/", 40) + "a", rep("%/", 40) + "%", '/', ""},
+		{rep("a/", 40) + "a", rep("%/", 39) + "%", '/', ""},
+		{rep("a/", 40) + "a", rep("%/", 41) + "%", '/', ""},
+		{rep("a/", 40) + "a", rep("*%/", 30) + "b", '/', ""},
+		{rep("a/", 40) + "a", rep("%*", 30) + "/b", '/', ""},
+		{rep("a/", 40) + "a", rep("%a", 41), '/', ""},
+		{rep("a/", 40) + "a", rep("%a", 41), 0, ""},
+		{rep("a/", 40) + "a", rep("%a/", 40) + "%a", '/', "a/"},
+		{rep("a/", 40) + "a", rep("%a/", 39) + "%a", '/', "a"},
+		{rep("ab", 100), rep("%a*b", 60) + "c", '/', "ababab"},
+		{rep("ab", 100), rep("%a*b", 60), '/', "ababab"},
+		{rep("a»", 40) + "a", rep("%»", 40) + "%", 0xBB, ""},
+		{rep("a»", 40) + "a", rep("%a", 30) + "»b", 0xBB, ""},
+		{rep("\xc2", 60) + "»", rep("%\xc2", 30) + "%", 0xBB, ""},
+		{rep("\xc2", 60) + "»x", rep("%\xc2", 30) + "%", 0xBB, ""},
+		{rep("a", 64), rep("*", 64) + "b", '/', ""},
+		{rep("a", 64), rep("*%", 100), '/', ""},
+		{rep("a/", 64), rep("%*", 100) + "/", '/', ""},
+		{rep("a/", 64), rep("%", 200), '/', ""},
+	}
+	for _, a := range advs {
+		if spun {
+			break
+		}
+		one(a.name, a.delim, a.ref, a.pat, "adversarial")
+	}
+	for i := 0; i < h.Pick(1500, 40000) && !spun; i++ {
+		delim := []rune{'/', '/', '/', 0, 0xBB}[h.Rng.Intn(5)]
+		na := []string{"a", "ab", "a/", "ab/", "a/."}[h.Rng.Intn(5)]
+		if delim >= 0x80 {
+			na = []string{"a" + string(delim), "ab" + string(delim) + "\xc2", "\xc2\xbb"}[h.Rng.Intn(3)]
+		}
+		name := long(1+h.Rng.Intn(90), na)
+		// the pattern: pieces of the name in order, separated by wildcard runs, sometimes with a
+		// piece that does not occur or a missing/extra tail
+		var sb strings.Builder
+		pos := 0
+		for pos < len(name) && sb.Len() < 260 {
+			if h.Rng.Intn(3) > 0 {
+				for k := 1 + h.Rng.Intn(2); k > 0; k-- {
+					sb.WriteByte("*%%"[h.Rng.Intn(3)])
+				}
+				pos += h.Rng.Intn(4)
+			}
+			if pos < len(name) {
+				l := 1 + h.Rng.Intn(2)
+				if pos+l > len(name) {
+					l = len(name) - pos
+				}
+				sb.WriteString(name[pos : pos+l])
+				pos += l
+			}
+		}
+		switch h.Rng.Intn(5) {
+		case 0:
+			sb.WriteString("b")
+		case 1:
+			sb.WriteString("*")
+		case 2:
+			sb.WriteString("%")
+		}
+		pat, ref := sb.String(), ""
+		if h.Rng.Intn(5) == 0 {
+			k := h.Rng.Intn(min(len(name), 6) + 1)
+			if strings.HasPrefix(pat, name[:k]) {
+				ref, pat = name[:k], pat[k:]
+			}
+		}
+		one(name, delim, ref, pat, fmt.Sprintf("adversarial-random-%d", min(len(pat)/64*64, 192)))
 	}
 }
